@@ -127,8 +127,22 @@ def _gen_plan(n):
     return []
 
 
+def _many_block_chunkings(n, tier):
+    """Chunkings of n with at least 7 blocks (the tree-shaped scans change
+    shape with the number of blocks)."""
+    if n <= 9:
+        return [c for c in compositions(n) if len(c) >= 7]
+    out = [(1,) * n, (2,) + (1,) * (n - 2), (1,) * (n - 2) + (2,)]
+    if tier != "quick":
+        out += [(1,) * k + (2,) + (1,) * (n - k - 2) for k in range(1, n - 2)]
+    return out
+
+
 def gen_cases(shard):
     w = shard["what"]
+    if w == "scan-many":
+        yield from _gen_scan_1d(shard["n"], tuple(shard["chunks"]))
+        return
     if w == "1d":
         n, ch = shard["n"], tuple(shard["chunks"])
         yield from _gen_swv_1d(n, ch)
@@ -151,6 +165,9 @@ def plan_shards(tier):
             chs = chs[::2]
         for ch in chs:
             shards.append({"what": "1d", "n": n, "chunks": list(ch)})
+    for n in (7, 8, 9, 13, 14, 16, 17) if tier == "quick" else range(7, 34):
+        for ch in _many_block_chunkings(n, tier):
+            shards.append({"what": "scan-many", "n": n, "chunks": list(ch)})
     for shp in [(3, 5), (4, 4)] if tier != "quick" else [(3, 4)]:
         chs = list(itertools.product(*[compositions(s) for s in shp]))
         for c in chs[:: (4 if tier == "quick" else 3)]:
@@ -160,7 +177,7 @@ def plan_shards(tier):
 
 _m = CC.make(
     "C19", gen_cases, plan_shards,
-    rule="1-D: every n, every chunking, every window 1..n: sliding_window_view alone and under sum/mean/max/min/std/var/prod/any/all and the nan-reducers; cumsum/cumprod/nancumsum/nancumprod x {sequential, blelloch}; diff n=1..3, prepend/append, gradient; map_overlap with depth 0/1/2 under every boundary kind (none, reflect, periodic, nearest, constants) against NumPy padding semantics, overlap+trim identity, bottleneck move_sum/mean/min/max with every window/min_count through map_overlap (native moving-window rewrite); for n >= 5 every contiguous slice [i:j] and four stepped/reversed slices on top of map_overlap (depth 1/2, every boundary), windowed sum/max, move_sum, cumsum and diff (slice pushdown through the window/scan). 2-D: both axes of small shapes. Non-trivial = multi-block source and non-empty result",
+    rule="1-D: every n, every chunking, every window 1..n: sliding_window_view alone and under sum/mean/max/min/std/var/prod/any/all and the nan-reducers; cumsum/cumprod/nancumsum/nancumprod x {sequential, blelloch} (also on axes cut into 7..17 blocks in quick, 7..33 in thorough: the Blelloch tree changes shape with the block count); diff n=1..3, prepend/append, gradient; map_overlap with depth 0/1/2 under every boundary kind (none, reflect, periodic, nearest, constants) against NumPy padding semantics, overlap+trim identity, bottleneck move_sum/mean/min/max with every window/min_count through map_overlap (native moving-window rewrite); for n >= 5 every contiguous slice [i:j] and four stepped/reversed slices on top of map_overlap (depth 1/2, every boundary), windowed sum/max, move_sum, cumsum and diff (slice pushdown through the window/scan). 2-D: both axes of small shapes. Non-trivial = multi-block source and non-empty result",
     assumptions=["NumPy sliding_window_view / np.pad semantics / bottleneck on the whole array are the references", "a documented ValueError for an overlap depth larger than the array is a refusal"],
     floors={"accepted": 5000},
 )
